@@ -21,3 +21,7 @@ int c03_c_walk(struct ring_head *r, const char *buf, unsigned char *out, int max
     }
     return n;
 }
+int c03_c_walk_stmt(struct ring_head *r, const char *buf, int cond, int stop_at, int skip_at, unsigned char *out, int max, int *else_ran)
+{
+    return c03_walk_stmt_inline(r, buf, cond, stop_at, skip_at, out, max, else_ran);
+}
